@@ -540,9 +540,22 @@ def run(ck):
     for f in real[:3]:
         ck.violation(dict(f, oracle="statuses + sanitizer + clean reopen vs ideal content", replay_hint="./check C14 --replay <this file>"))
     if (broken or corr_broken) and not real:
-        ck.violation({"broken_obligations": broken, "broken_correspondence": corr_broken[:3],
-                      "note": "the model and the implementation differ call by call (or an obligation no longer checks) but no scenario "
-                              "explored lost data silently, crashed, or failed to retry"}, nofail=True)
+        def on_read_path(c):
+            d = c.get("first_syscall_divergence") or {}
+            return any((x or [""])[0] == "read" for x in (d.get("model"), d.get("impl")))
+        rd = [c for c in corr_broken if on_read_path(c)]
+        rec = {"broken_obligations": broken, "broken_correspondence": corr_broken[:3],
+               "note": "the model and the implementation differ call by call (or an obligation no longer checks) but no scenario "
+                       "explored lost data silently, crashed, or failed to retry"}
+        if rd:
+            # the divergence is on the READ path: the library's ADFI_read does not behave as theorem C14_read_retry says (every
+            # byte up to the requested count or end of file, short counts and EINTR retried).  Read-side faults are outside the
+            # property's quantifier (write, seek, close): a concrete witness against the theorem, not against the property.
+            rec["contradicts_theorem"] = "C14_read_retry (coq/Properties_C14.v)"
+            rec["read_path_witness"] = {k: rd[0][k] for k in ("init", "ops", "fault", "first_syscall_divergence", "first_output_divergence")}
+            rec["note"] += ("; the first divergence is a read() call: read-side behaviour is outside the property's quantifier "
+                            "(write, seek, close) and is reported as a model/library divergence only")
+        ck.violation(rec, nofail=True)
     ck.extra["observations_outside_the_property"] = observations[:3]
     ck.extra["input_distribution"] = stats
     # second layer: status-propagation table regenerated from the sources (translators/c14_errprop.py), generic
